@@ -43,6 +43,9 @@ func genC06(t *rapid.T) *Case {
 	m := BuildModel(spec)
 	els := []string{"textarea", "title", "xmp", "b", "i", "p"}
 	in := genSoup(t, m, &soupOpts{els: els})
+	if rapid.IntRange(0, 5).Draw(t, "corpusInput") == 0 {
+		in = genCorpusMutation(t)
+	}
 	return &Case{Spec: spec, Input: BStr(in), Ints: []int{dropped}}
 }
 
